@@ -30,6 +30,8 @@ package server
 
 //@ func (*MetaCDC).pauseTaskWithReason
 //@   props C06 C11
+// the task ids of stored / running tasks were checked when the task was created (validCreateRequest) or were generated
+//@   trustpre WithLabelValues
 //@   requires wfTasks(e) && wfEntities(e)
 //@   dyncall modifies nothing
 //@   ensures [the-named-task-ends-paused-with-the-reason] old(taskID in e.cdcTasks.data) && old(e.cdcTasks.data[taskID]) != nil ==> old(e.cdcTasks.data[taskID]).State == meta.TaskStatePaused && old(e.cdcTasks.data[taskID]).Reason == reason
@@ -52,8 +54,35 @@ package server
 //@ spec wfCollNames(req *request.CreateRequest) bool = (len(req.CollectionInfos) == 1 ==> !contains(req.CollectionInfos[0].Name, ".")) && (forall d string :: d in req.DBCollections ==> !contains(d, ".") && len(req.DBCollections[d]) == 1 && !contains(req.DBCollections[d][0].Name, "."))
 //@ spec wfMappingNames(req *request.CreateRequest) bool = forall i int :: 0 <= i && i < len(req.NameMapping) ==> !contains(req.NameMapping[i].SourceDB, ".") && !contains(req.NameMapping[i].TargetDB, ".") && (forall s string :: s in req.NameMapping[i].CollectionMapping ==> !contains(s, ".") && !contains(req.NameMapping[i].CollectionMapping[s], "."))
 
+// ---- C19 / C06 / C12: a caller-supplied task id is a plain identifier -----------------------------------------
+// plainID(s): only letters, digits, '-' and '_'.  Such a string is valid UTF-8 (ASCII), contains no key separator and
+// is neither "." nor ".." (the task id is a component of the metadata keys and a metric label).
+//@ spec plainChar(c mathint) bool = (97 <= c && c <= 122) || (65 <= c && c <= 90) || (48 <= c && c <= 57) || c == 45 || c == 95
+// chAt(s, i): the i-th character of s (a function symbol of its own, so that facts about "every character" can be instantiated)
+//@ ufunc chAt (String Int) Int
+//@ smtaxiom chAtDef: (forall ((s String) (i Int)) (! (= (chAt s i) (str.to_code (str.at s i))) :pattern ((chAt s i))))
+//@ spec plainID(s string) bool = forall i int :: {chAt(s, i)} 0 <= i && i < len(s) ==> plainChar(chAt(s, i))
+// math lemma (assumed): a string of ASCII characters is valid UTF-8
+//@ smtaxiom asciiIsUTF8: (forall ((s String)) (! (=> (forall ((i Int)) (=> (and (<= 0 i) (< i (str.len s))) (< (chAt s i) 128))) (utf8ok s)) :pattern ((utf8ok s))))
+// a string that contains the key separator has it at some index
+//@ lemma slashHasIndex C19 C12: forall s string :: {contains(s, "/")} contains(s, "/") ==> 0 <= indexOf(s, "/") && indexOf(s, "/") < len(s) && chAt(s, indexOf(s, "/")) == 47
+//@ func isValidTaskID
+//@   props C19 C12
+//@   uses slashHasIndex(taskID)
+//@   ensures [accepted-ids-are-plain-identifiers] result ==> plainID(taskID)
+//@   ensures [accepted-ids-are-valid-utf8] result ==> utf8ok(taskID)
+//@   ensures [accepted-ids-have-no-key-separator] result ==> !contains(taskID, "/")
+//@   ensures [accepted-ids-are-not-dot-names] result ==> taskID != "." && taskID != ".."
+//@   modifies nothing
+//@   panics never
+//@   loop 1 invariant 0 <= i && i <= len(taskID) && (forall j int :: {chAt(taskID, j)} 0 <= j && j < i ==> plainChar(chAt(taskID, j)))
+
 //@ func (*MetaCDC).validCreateRequest
 //@   props C19 C18
+//@   ensures [an-accepted-request-has-a-plain-task-id] err == nil ==> plainID(old(req.TaskID)) && utf8ok(old(req.TaskID)) && !contains(old(req.TaskID), "/")
+//@   ensures [the-task-id-is-left-as-it-was] req.TaskID == old(req.TaskID)
+// the connection probes (handler constructors of core/writer, no contract) are assumed not to write the request's task id
+//@   private request.CreateRequest.TaskID
 //@   requires e != nil && e.config != nil && req != nil
 //@   ensures [collection-names-with-the-full-name-separator-are-rejected] err == nil ==> old(wfCollNames(req))
 //@   ensures [mapping-names-with-the-full-name-separator-are-rejected] err == nil ==> old(wfMappingNames(req))
@@ -125,9 +154,12 @@ package server
 //@   modifies *
 
 // the metrics library panics on a label value that is not valid UTF-8: utf8ok(s) = "s is valid UTF-8" (evaluated by
-// the verifier for string literals, uninterpreted otherwise)
-//@ ufunc utf8ok (String) Bool
+// the verifier for string literals, uninterpreted otherwise); declared in core/util
 //@ trusted func (*github.com/prometheus/client_golang/prometheus.CounterVec).WithLabelValues
+//@   params v lvs
+//@   requires [metric-label-values-are-valid-utf8] forall i int :: {lvs[i]} 0 <= i && i < len(lvs) ==> utf8ok(lvs[i])
+//@   modifies nothing
+//@ trusted func (*github.com/prometheus/client_golang/prometheus.GaugeVec).WithLabelValues
 //@   params v lvs
 //@   requires [metric-label-values-are-valid-utf8] forall i int :: {lvs[i]} 0 <= i && i < len(lvs) ==> utf8ok(lvs[i])
 //@   modifies nothing
@@ -215,6 +247,8 @@ package server
 
 //@ func (*MetaCDC).ReloadTask
 //@   props C18 C10
+// the task ids of stored / running tasks were checked when the task was created (validCreateRequest) or were generated
+//@   trustpre WithLabelValues
 //@   requires e != nil && e.metaStoreFactory != nil
 //@   requires e.collectionNames.data != nil && e.collectionNames.excludeData != nil && e.collectionNames.extraInfos != nil
 // only what is handed to the logger matters here: the task helpers are treated as unknown calls
@@ -315,6 +349,8 @@ package server
 // checkpoint per (task, collection, source channel)
 //@ func (*MetaCDC).startReplicateDMLMsg$1$2
 //@   props C05
+// the task ids of stored / running tasks were checked when the task was created (validCreateRequest) or were generated
+//@   trustpre WithLabelValues
 //@   requires deref(e) != nil && deref(entity) != nil && deref(entity).writerObj != nil && deref(e).metaStoreFactory != nil
 //@   requires forall i int :: {replicateMsgs[i]} 0 <= i && i < len(replicateMsgs) ==> replicateMsgs[i] != nil && replicateMsgs[i].MsgPack != nil && len(replicateMsgs[i].MsgPack.EndPositions) >= 1 && replicateMsgs[i].TaskID != ""
 //@   opaque pauseTaskWithReason replicateMetric
@@ -449,9 +485,9 @@ package server
 //@   props C10 C19
 //@   requires wfBookkeeping(e) && req != nil && e.config != nil && e.metaStoreFactory != nil
 //@   requires [each-target-has-its-own-name-mapping-table] forall k1 string, k2 string :: {mget(e.collectionNames.nameMapping, k1), mget(e.collectionNames.nameMapping, k2)} k1 in e.collectionNames.nameMapping && k2 in e.collectionNames.nameMapping && k1 != k2 ==> e.collectionNames.nameMapping[k1] != e.collectionNames.nameMapping[k2]
-//@   opaque validCreateRequest startInternal getTaskUniqueIDFromReq GetCollectionNamesFromReq getRPCChannelName
+//@   opaque startInternal getTaskUniqueIDFromReq GetCollectionNamesFromReq getRPCChannelName
 //@   trustpre checkDuplicateCollection.2 checkDuplicateCollection.3 checkDuplicateCollection.4
-//@   private MetaCDC.collectionNames MetaCDC.metaStoreFactory maps(string;model.ExtraInfo) maps(string;map[string]string) maps(string;string) request.CreateRequest.ExtraInfo deleteCalls deletedKey deletedFlagged
+//@   private MetaCDC.collectionNames MetaCDC.metaStoreFactory maps(string;model.ExtraInfo) maps(string;map[string]string) maps(string;string) request.CreateRequest.ExtraInfo deleteCalls deletedKey deletedFlagged request.CreateRequest.TaskID meta.TaskInfo.TaskID
 //@   splitposts
 //@   ensures [a-failed-create-takes-no-user-role-flag] err != nil ==> (forall k string :: {mget(e.collectionNames.extraInfos, k)} e.collectionNames.extraInfos[k].EnableUserRole ==> old(e.collectionNames.extraInfos[k].EnableUserRole))
 //@   ensures [a-create-that-failed-before-its-task-was-stored-leaves-every-user-role-flag-as-it-was] err != nil && deleteCalls == old(deleteCalls) ==> (forall k string :: {mget(e.collectionNames.extraInfos, k)} e.collectionNames.extraInfos[k] == old(e.collectionNames.extraInfos[k]))
